@@ -173,3 +173,33 @@ Proof.
   split; [unfold half_width_ok, example_tric; cbn; lia|].
   vm_compute. left. reflexivity.
 Qed.
+
+(* ---------------------------------------------------------------- triclinic cell, atoms inside the cell *)
+(* found by the correspondence/oracle run (thorough tier), reproduced on md.compute_neighborlist:
+   a flat skewed cell whose z extent holds only three voxels.  Two atoms inside the cell, plain distance 589
+   < cutoff 676 <= half of every diagonal entry (and of every cell width), two z-voxels apart: the z window is
+   capped at nz/2 = 1 voxel, so the other atom's voxel is only reached as the periodic image one cell up, whose
+   y window is shifted by c_y -- the direct neighbour is never examined.  Neither variant lists the pair. *)
+Definition tric_box : box := mkBox 4323 1674 3375 (-1479) 1533 1358.
+Definition tric_xyz : list vec := [(2704, 842, 452); (2704, 677, 1017)].
+
+Lemma nlist_triclinic_incell_counterexample :
+  exists B c xyz i j,
+    box_ok B /\ reduce_box B = B /\ 0 < c /\ half_width_ok B c 1 /\
+    (forall k, (k < length xyz)%nat -> in_cell B (pos xyz k)) /\
+    (i < length xyz)%nat /\ (j < length xyz)%nat /\ i <> j /\
+    norm2 (vsub (pos xyz j) (pos xyz i)) < c * c /\
+    ~ In j (nth i (nlist_cur (Some B) c xyz) []) /\ ~ In j (nth i (nlist_fix (Some B) c xyz) []).
+Proof.
+  exists tric_box, 676, tric_xyz, 1%nat, 0%nat.
+  split; [unfold box_ok, tric_box; cbn; lia|].
+  split; [vm_compute; reflexivity|].
+  split; [lia|].
+  split; [unfold half_width_ok, tric_box; cbn; lia|].
+  split.
+  { intros k Hk. unfold tric_xyz in Hk. cbn [length] in Hk.
+    destruct k as [|[|k]]; [| |lia]; unfold in_cell, pos, tric_xyz, tric_box, vx, vy, vz; cbn; lia. }
+  split; [cbn; lia|]. split; [cbn; lia|]. split; [discriminate|].
+  split; [vm_compute; reflexivity|].
+  split; vm_compute; intros H; exact H.
+Qed.
